@@ -4,10 +4,12 @@ import (
 	"context"
 	"fmt"
 	"strings"
+	"sync"
 	"time"
 
 	zed "github.com/brimdata/super"
 	"github.com/brimdata/super/compiler"
+	"github.com/brimdata/super/compiler/ast"
 	"github.com/brimdata/super/compiler/ast/dag"
 	"github.com/brimdata/super/compiler/data"
 	"github.com/brimdata/super/order"
@@ -67,7 +69,7 @@ func runProgram(ctx context.Context, program string, o runOpts, inputs ...string
 		}
 	}()
 	zctx := zed.NewContext()
-	seq, _, err := compiler.Parse(program)
+	seq, err := parseCached(program)
 	if err != nil {
 		return runResult{Err: fmt.Errorf("parse: %w", err)}
 	}
@@ -109,6 +111,33 @@ func runProgram(ctx context.Context, program string, o runOpts, inputs ...string
 	}
 	res.Rows, res.Err = flowh.Drain(p)
 	return res
+}
+
+// The PEG parser is the most expensive step for these tiny inputs; NewJob works
+// on a copy of the AST (ast.CopySeq), so a parsed program can be shared.
+var (
+	parseMu    sync.Mutex
+	parseCache = map[string]ast.Seq{}
+)
+
+func parseCached(program string) (ast.Seq, error) {
+	parseMu.Lock()
+	seq, ok := parseCache[program]
+	parseMu.Unlock()
+	if ok {
+		return seq, nil
+	}
+	seq, _, err := compiler.Parse(program)
+	if err != nil {
+		return nil, err
+	}
+	parseMu.Lock()
+	if len(parseCache) > 20000 {
+		parseCache = map[string]ast.Seq{}
+	}
+	parseCache[program] = seq
+	parseMu.Unlock()
+	return seq, nil
 }
 
 func hasDefaultScan(seq dag.Seq) bool {
